@@ -252,7 +252,7 @@ impl Scenario for Docs {
 
     fn gen(&self, rng: &mut Rng, tier: Tier) -> DocsPlan {
         let ndocs = rng.range(2, 4) as u8;
-        let g = GenCfg { docs: ndocs, authors: rng.range(1, 3) as u8, max_key_len: 3, ts_values: 6, marker_pct: 20, contents: 3 };
+        let g = GenCfg { docs: ndocs, authors: if matches!(self.mode, Mode::Migrate | Mode::Remove) { crate::world::gen_author_count(rng, 3) } else { rng.range(1, 3) as u8 }, max_key_len: 3, ts_values: 6, marker_pct: 20, contents: 3 };
         let backend = match rng.below(10) {
             0..=1 => Backend::Mem,
             2..=8 => Backend::Disk,
